@@ -1,0 +1,79 @@
+//go:build verif
+
+// Contracts for package consensus, checked by /verif/govc (comment-only file).
+package consensus
+
+// The objects whose fields calls into unknown code (rule sets, leader rotation, network,
+// aggregation, event handlers) are assumed not to write, except where a contract's own
+// modifies clause says otherwise.
+//@ preserveset std = Voter, Proposer, Committer, protocol.ViewStates, hotstuff.Block, hotstuff.ProposeMsg, cert.Authority, core.RuntimeConfig, blockchain.Blockchain, synchronizer.Synchronizer, synchronizer.timeoutCollector
+
+// Rule sets, aggregators and disseminators are unknown code behind interfaces: they may
+// change anything except the fields of the listed types, and keep every block store
+// content-addressed.
+//@ interface VoteRuler.VoteRule
+//@   preserves @std
+//@   ensures blockchain.storeskept() && core.cfgstable()
+//@ interface CommitRuler.CommitRule
+//@   preserves @std
+//@   ensures blockchain.storeskept() && core.cfgstable()
+
+//@ pred vwf(v *Voter) = v.auth != nil && cert.awf(v.auth) && v.ruler != nil && v.leaderRotation != nil && v.committer != nil && v.aggregator != nil
+
+// A proposal is accepted for voting only if its view is above the last voted (or stopped)
+// view, its certificate is valid and it comes from the leader of its view.
+//@ func (*Voter).Verify property C03
+//@   requires vwf(v) && hotstuff.genesisBlock != nil && proposal != nil && proposal.Block != nil
+//@   ensures [fresh] err == nil ==> proposal.Block.view > v.lastVotedView
+//@   ensures [qc-valid] err == nil ==> cert.qcok(v.auth, proposal.Block.cert)
+//@   ensures [leader] err == nil ==> proposal.ID == leaderrotation.leaderOf(v.leaderRotation, proposal.Block.view)
+//@   ensures [extends-certified] err == nil && !cert.isGenesisHash(proposal.Block.cert.hash) ==> proposal.Block.parent == proposal.Block.cert.hash && v.auth.blockchain.blocks[proposal.Block.cert.hash].view < proposal.Block.view
+//@   ensures [no-vote-state-change] v.lastVotedView == old(v.lastVotedView)
+//@   ensures [inv] vwf(v)
+//@   preserves @std
+
+// The vote history only moves forward: StopVoting raises the mark, never lowers it.
+//@ func (*Voter).StopVoting property C03
+//@   ensures [max] v.lastVotedView == max(old(v.lastVotedView), view)
+//@   ensures [result] result == (old(v.lastVotedView) < view)
+//@   modifies v.lastVotedView
+
+// Signing a vote: only for a view above everything voted or stopped so far; afterwards the
+// mark is the block's view. Together with the census below (the mark is written only by Vote,
+// StopVoting and NewVoter; partial certificates are created only by Vote) this gives "at most
+// one vote per view, in strictly increasing view order, never at or below a view for which a
+// timeout was signed".
+//@ func (*Voter).Vote property C03
+//@   requires vwf(v) && block != nil && block.view > v.lastVotedView
+//@   ensures [voted] err == nil ==> v.lastVotedView == block.view
+//@   ensures [failed] err != nil ==> v.lastVotedView == old(v.lastVotedView)
+//@   ensures [monotone] v.lastVotedView >= old(v.lastVotedView)
+//@   modifies v.lastVotedView, alloc
+
+// Program-wide frame (scan of all functions of the module, test helpers excluded): votes are
+// signed only inside Voter.Vote, and the vote mark is written only by Vote, StopVoting and the
+// constructor.
+//@ census C03 calls security/cert.(*Authority).CreatePartialCert within protocol/consensus.(*Voter).Vote
+//@ census C03 writes protocol/consensus.Voter.lastVotedView within protocol/consensus.(*Voter).Vote, protocol/consensus.(*Voter).StopVoting, protocol/consensus.NewVoter
+//@ census C03 calls protocol/consensus.(*Voter).Vote within protocol/consensus.(*Voter).OnValidPropose, protocol/consensus.(*Proposer).Propose
+
+// TryCommit stores the block and commits what the commit rule yields; it never touches the
+// voter. (Its effect on the committed block is specified on commitInner.)
+//@ func (*Committer).TryCommit
+//@   trusted commit path (recursion, pruning, event emission) is specified separately; here only its frame is used
+//@   preserves @std
+//@   ensures blockchain.storeskept() && core.cfgstable()
+
+//@ func (*Voter).OnValidPropose property C03
+//@   requires vwf(v) && proposal != nil && proposal.Block != nil && proposal.Block.view > v.lastVotedView
+//@   ensures [monotone] v.lastVotedView >= old(v.lastVotedView)
+//@   ensures [voted-this-view-or-not] v.lastVotedView == old(v.lastVotedView) || v.lastVotedView == proposal.Block.view
+//@   modifies v.lastVotedView
+//@   preserves @std
+
+//@ func (*Proposer).Propose property C03
+//@   requires p.voter != nil && vwf(p.voter) && p.committer != nil && p.disseminator != nil && hotstuff.genesisBlock != nil && proposal != nil && proposal.Block != nil
+//@   ensures [monotone] p.voter.lastVotedView >= old(p.voter.lastVotedView)
+//@   ensures [voted-this-view-or-not] p.voter.lastVotedView == old(p.voter.lastVotedView) || (p.voter.lastVotedView == proposal.Block.view && proposal.Block.view > old(p.voter.lastVotedView))
+//@   modifies p.voter.lastVotedView
+//@   preserves @std
